@@ -96,6 +96,15 @@ def d3_exceptions(facts, rep):
         ok = bool(pb) and all(c[2].get('tr') is not None for c in pb)
         rep.ob('D3', 'K9', fn, 'element copies/moves into the heap storage happen inside try', ok,
                'a throwing copy constructor unwinds out of the handler: every batched operation hangs')
+        # ... and the try stops EVERY exception: the element type is the user's, its copy / move may throw anything.  A handler
+        # list without catch(...) lets the others escape from the aggregator handler (handler_busy stays set, the batch is dropped).
+        trys = set(c[2].get('tr') for c in pb if c[2].get('tr') is not None)
+        for t in sorted(trys):
+            hs = [nd for nd in fn.nodes if nd and nd.get('k') == 'catch' and nd.get('try') == t]
+            rep.ob('D3', 'K9', fn, 'the try around the element copy has a catch(...) handler', any(h.get('ell') for h in hs),
+                   'handlers: %s - an exception of another type thrown by the element\'s copy / move constructor escapes the handler: it '
+                   'surfaces in whichever thread runs the batch, the submitter spins for ever and handler_busy stays set'
+                   % [h.get('ty') or '...' for h in hs], key_extra='catchall|%s' % t)
         # the catch handler writes only the status of the current operation (through tmp)
         for b, blk in fn.blocks.items():
             lab = blk.get('label')
